@@ -27,6 +27,7 @@ import (
 	"strings"
 	"sync"
 	"testing"
+	"time"
 
 	"github.com/cockroachdb/pebble"
 	"github.com/cockroachdb/pebble/batchrepr"
@@ -648,7 +649,7 @@ func (a *agg) flush(c *vlib.Ctx) {
 // hugeCount: newFlushableBatch and replayIngestedFlushable pre-allocate Count() entries, so a header
 // count of 2^32-1 asks for 64 GiB / 32 GiB: a fatal out-of-memory error, not a panic. Such inputs are
 // not fed to those two functions (reported as an observation, see the "excluded" note).
-const hugeCount = 1 << 20
+const hugeCount = 4096
 
 var replayAssertions = []string{
 	"cannot apply ingested sstable or excise kind keys to memtable",
@@ -661,16 +662,21 @@ var replayAssertions = []string{
 	"pebble: couldn't load all files in WAL entry",
 }
 
-// panicClass gives the two known assertion families their stable classes; every other panic is
+// panicClass gives the known panic families their stable classes; every other panic is
 // "panic-<entrypoint>".
-func panicClass(entry int, p any, hasForeign bool) string {
+//
+//	apply-panic-foreign-kind     Batch.Apply asserts on IngestSST / IngestSSTWithBlobs / Excise records
+//	replay-panic-foreign-kind    the WAL replay path (replayIngestedFlushable, memTable.apply) asserts on
+//	                             batches that contain those kinds but are not a well-formed flushable ingest
+//	replay-panic-rangekey-value  newFlushableBatch -> rangekey.Decode slices a range key value out of bounds
+func panicClass(entry int, p any, stack string, hasForeign bool) string {
 	msg := fmt.Sprint(p)
 	switch entry {
 	case eApplyDB, eApplyIdx, eApplyDBNonEmpty, eApplyIdxNonEmpty, eApplyPlain:
 		if hasForeign && strings.Contains(msg, "pebble: invalid key kind for batch") {
 			return "apply-panic-foreign-kind"
 		}
-	case eReplayMem, eReplayIngest, eOpen, eOpenLarge:
+	case eReplayMem, eReplayIngest, eReplayFlushable, eOpen, eOpenLarge:
 		if hasForeign {
 			for _, a := range replayAssertions {
 				if strings.Contains(msg, a) {
@@ -678,13 +684,23 @@ func panicClass(entry int, p any, hasForeign bool) string {
 				}
 			}
 		}
+		if strings.Contains(msg, "runtime error: slice bounds out of range") && strings.Contains(stack, "internal/rangekey.decode") {
+			return "replay-panic-rangekey-value"
+		}
 	}
 	return "panic-" + entryNames[entry]
 }
 
-// runBytes feeds x to every entry point. deep additionally runs the non-empty Apply receivers and the
-// two real DB opens.
-func (e *env) runBytes(a *agg, x []byte, deep bool, verbose bool) (fails []failure) {
+// Depth of the treatment of one input.
+const (
+	deepNone      = iota // the in-memory entry points only
+	deepAll              // plus non-empty Apply receivers and two real DB opens whose WAL holds the input
+	deepDecodable        // like deepAll, but the DB opens only if replay-style SetRepr accepts the input
+	// (DB.replayWAL returns the SetRepr error at once; the unfiltered plans cover that branch)
+)
+
+// runBytes feeds x to every entry point.
+func (e *env) runBytes(a *agg, x []byte, deep int, verbose bool) (fails []failure) {
 	var out [nEntries]uint8
 	add := func(class string, entry int, f string, args ...any) {
 		fails = append(fails, failure{class, entryNames[entry], fmt.Sprintf(f, args...)})
@@ -726,7 +742,7 @@ func (e *env) runBytes(a *agg, x []byte, deep bool, verbose bool) (fails []failu
 		switch {
 		case p != nil:
 			out[entry] = oPanic
-			add(panicClass(entry, p, hasForeign), entry, "%s panics: %v\n%s", entryNames[entry], p, trimStack(stack))
+			add(panicClass(entry, p, stack, hasForeign), entry, "%s panics: %v\n%s", entryNames[entry], p, trimStack(stack))
 		case ferr != nil:
 			out[entry] = oErr
 		default:
@@ -846,7 +862,7 @@ func (e *env) runBytes(a *agg, x []byte, deep bool, verbose bool) (fails []failu
 		applyInto(eApplyPlain, func() *pebble.Batch { return new(pebble.Batch) }, false, false)
 		applyInto(eApplyDB, func() *pebble.Batch { return e.db.NewBatch() }, false, true)
 		applyInto(eApplyIdx, func() *pebble.Batch { return e.db.NewIndexedBatch() }, false, true)
-		if deep {
+		if deep != deepNone {
 			applyInto(eApplyDBNonEmpty, func() *pebble.Batch { return e.db.NewBatch() }, true, true)
 			applyInto(eApplyIdxNonEmpty, func() *pebble.Batch { return e.db.NewIndexedBatch() }, true, true)
 		}
@@ -854,7 +870,11 @@ func (e *env) runBytes(a *agg, x []byte, deep bool, verbose bool) (fails []failu
 
 	// 5. The steps of DB.replayWAL after the record has been read: SetRepr with db set (done above),
 	// look at the first kind, then replayIngestedFlushable | newFlushableBatch | memTable.prepare+apply.
-	if rb != nil {
+	// The WAL reader (wal/reader.go) drops records whose header count is zero (LogData-only batches)
+	// and records whose seqnum does not exceed the previous one (initially 0) before DB.replayWAL
+	// sees them, so those inputs never reach the steps below.
+	walSkips := hdrCount == 0 || hdrSeq == 0
+	if rb != nil && !walSkips {
 		if firstForeign {
 			if hdrCount > hugeCount {
 				out[eReplayIngest] = oSkip
@@ -922,7 +942,7 @@ func (e *env) runBytes(a *agg, x []byte, deep bool, verbose bool) (fails []failu
 	}
 
 	// 6. The real thing: a DB whose WAL holds this record is opened.
-	if deep {
+	if deep == deepAll || (deep == deepDecodable && rb != nil) {
 		for _, large := range []bool{false, true} {
 			entry := eOpen
 			if large {
@@ -940,7 +960,7 @@ func (e *env) runBytes(a *agg, x []byte, deep bool, verbose bool) (fails []failu
 				add("harness-wal-write", entry, "%v", err)
 				continue
 			}
-			if status == refAmbiguous {
+			if status == refAmbiguous || (walSkips && len(x) >= headerLen) {
 				continue
 			}
 			mustErr := len(x) < headerLen || status == refInvalid || !knownKinds
@@ -1019,6 +1039,7 @@ func validReprs() []validRepr {
 	}
 	out := []validRepr{
 		mk("four-ops", []Op{{K: "set", Key: "a", Val: "1"}, {K: "del", Key: "b"}, {K: "merge", Key: "a", Val: "2"}, {K: "sdel", Key: "b"}}),
+		mk("one-rangekeyset", []Op{{K: "rkset", Key: "a", End: "c", Suf: "@1", Val: "r"}}),
 		mk("all-kinds", []Op{{K: "set", Key: "a", Val: "v"}, {K: "del", Key: "b"}, {K: "delsized", Key: "a", N: 3}, {K: "sdel", Key: "b"},
 			{K: "merge", Key: "b", Val: "w"}, {K: "delrange", Key: "a", End: "c"}, {K: "logdata", Key: "x"},
 			{K: "rkset", Key: "a", End: "c", Suf: "@1", Val: "z"}, {K: "rkunset", Key: "a", End: "c", Suf: "@1"}, {K: "rkdel", Key: "b", End: "c"}}),
@@ -1038,14 +1059,14 @@ type plan struct {
 	name  string
 	n     int                                   // number of work items
 	items func(i int, f func(x []byte, origin func() string)) // inputs of work item i
-	deep  bool
+	deep  int
 	size  int64 // number of inputs
 }
 
 func bytePlans(thorough bool) []plan {
 	var plans []plan
 	// strings shorter than a header
-	plans = append(plans, plan{name: "shorter-than-header", n: headerLen, deep: true, size: headerLen,
+	plans = append(plans, plan{name: "shorter-than-header", n: headerLen, deep: deepAll, size: headerLen,
 		items: func(i int, f func([]byte, func() string)) {
 			f(header(1)[:i], func() string { return fmt.Sprintf("header prefix of %d bytes", i) })
 		}})
@@ -1053,42 +1074,59 @@ func bytePlans(thorough bool) []plan {
 	if thorough {
 		maxTail = 3
 	}
+	// header+3 restricts the first tail byte (the kind) to 0..31 and four representatives of the
+	// kinds above InternalKeyKindMax, all of which are rejected by one comparison before anything else
+	// is read (every such kind byte is enumerated at header+2).
+	var kinds3 []byte
+	for k := 0; k < 32; k++ {
+		kinds3 = append(kinds3, byte(k))
+	}
+	kinds3 = append(kinds3, 0x40, 0x7f, 0x80, 0xff)
 	for t := 0; t <= maxTail; t++ {
 		t := t
 		per := 1
-		for j := 0; j < t && j < 2; j++ {
-			per *= 256
+		switch t {
+		case 1:
+			per = 256
+		case 2:
+			per = 65536
+		case 3:
+			per = len(kinds3) * 256
 		}
 		inner := 1
+		mode := deepAll
+		if t >= 2 {
+			mode = deepDecodable
+		}
 		if t == 3 {
 			inner = 256
 		}
 		plans = append(plans, plan{
-			name: fmt.Sprintf("header+%d", t), n: len(countMenu) * per, deep: t <= 1 || (thorough && t == 2),
+			name: fmt.Sprintf("header+%d", t), n: len(countMenu) * per, deep: mode,
 			size: int64(len(countMenu)) * int64(per) * int64(inner),
 			items: func(i int, f func([]byte, func() string)) {
 				m, r := i/per, i%per
 				x := header(countMenu[m])
+				origin := func() string { return fmt.Sprintf("header(seqnum=%d,count=%d)+%d bytes", baseSeq, countMenu[m], t) }
 				switch t {
+				case 0:
+					f(x, origin)
 				case 1:
-					x = append(x, byte(r))
-				case 2, 3:
-					x = append(x, byte(r>>8), byte(r))
-				}
-				if t < 3 {
-					f(x, func() string { return fmt.Sprintf("header(count=%d)+%d bytes", countMenu[m], t) })
-					return
-				}
-				x = append(x, 0)
-				for b := 0; b < 256; b++ {
-					x[headerLen+2] = byte(b)
-					f(x, func() string { return fmt.Sprintf("header(count=%d)+3 bytes", countMenu[m]) })
+					f(append(x, byte(r)), origin)
+				case 2:
+					f(append(x, byte(r>>8), byte(r)), origin)
+				case 3:
+					x = append(x, kinds3[r>>8], byte(r), 0)
+					for b := 0; b < 256; b++ {
+						x[headerLen+2] = byte(b)
+						f(x, origin)
+					}
 				}
 			}})
 	}
 	for _, v := range validReprs() {
 		v := v
-		plans = append(plans, plan{name: "truncations of " + v.name, n: len(v.repr) + 1, deep: true, size: int64(len(v.repr) + 1),
+		plans = append(plans, plan{name: "truncations of " + v.name, n: len(v.repr) + 1, deep: deepAll, size: int64(len(v.repr) + 1),
 			items: func(i int, f func([]byte, func() string)) {
 				f(v.repr[:i], func() string { return fmt.Sprintf("%s (%d bytes) truncated to %d", v.name, len(v.repr), i) })
 			}})
@@ -1096,7 +1134,11 @@ func bytePlans(thorough bool) []plan {
 	for _, v := range validReprs() {
 		v := v
 		// work item = byte offset; 256 values each (the original value gives the valid repr itself)
-		plans = append(plans, plan{name: "substitutions in " + v.name, n: len(v.repr), deep: thorough || len(v.repr) < 150, size: int64(len(v.repr)) * 256,
+		mode := deepAll
+		if !thorough && len(v.repr) >= 150 {
+			mode = deepNone
+		}
+		plans = append(plans, plan{name: "substitutions in " + v.name, n: len(v.repr), deep: mode, size: int64(len(v.repr)) * 256,
 			items: func(i int, f func([]byte, func() string)) {
 				x := clone(v.repr)
 				for b := 0; b < 256; b++ {
@@ -1133,7 +1175,7 @@ func TestCheck(t *testing.T) {
 					t.Fatal(err)
 				}
 				a := newAgg()
-				fails = e.runBytes(a, x, true, true)
+				fails = e.runBytes(a, x, deepAll, true)
 				a.flush(c)
 			}
 			for _, f := range fails {
@@ -1157,6 +1199,7 @@ func TestCheck(t *testing.T) {
 		}
 		k := len(alphabet)
 		n := vlib.SeqCount(k, 1, depth)
+		t0 := time.Now()
 		done, complete := c.Each(n, func(i int) {
 			ops := seqOps(vlib.SeqDecode(i, k, 1, depth))
 			fails := e.runSeq(c, ops, false)
@@ -1175,7 +1218,7 @@ func TestCheck(t *testing.T) {
 				c.Sample(Case{Part: "seq", Ops: ops})
 			}
 		})
-		notes = append(notes, fmt.Sprintf("parts a+c: %d/%d op sequences of depth 1..%d over %d symbols", done, n, depth, k))
+		notes = append(notes, fmt.Sprintf("parts a+c: %d/%d op sequences of depth 1..%d over %d symbols [%.1fs]", done, n, depth, k, time.Since(t0).Seconds()))
 		if !complete {
 			c.Incomplete(fmt.Sprintf("budget expired in parts a+c after %d of %d op sequences", done, n))
 			stopped = true
@@ -1187,6 +1230,7 @@ func TestCheck(t *testing.T) {
 				p := p
 				var inputs int64
 				var mu sync.Mutex
+				t0 := time.Now()
 				done, complete := c.Each(p.n, func(i int) {
 					a := newAgg()
 					p.items(i, func(x []byte, originf func() string) {
@@ -1205,11 +1249,8 @@ func TestCheck(t *testing.T) {
 					mu.Unlock()
 					a.flush(c)
 				})
-				deep := ""
-				if p.deep {
-					deep = " (incl. DB open)"
-				}
-				notes = append(notes, fmt.Sprintf("part b %s: %d/%d work items, %d inputs%s", p.name, done, p.n, inputs, deep))
+				deep := [...]string{"", " (incl. DB open)", " (incl. DB open when replay-style SetRepr accepts)"}[p.deep]
+				notes = append(notes, fmt.Sprintf("part b %s: %d/%d work items, %d inputs%s [%.1fs]", p.name, done, p.n, inputs, deep, time.Since(t0).Seconds()))
 				if !complete {
 					c.Incomplete(fmt.Sprintf("budget expired in part b plan %q after %d of %d work items; all earlier plans complete", p.name, done, p.n))
 					break
